@@ -32,6 +32,7 @@ class EngineBug(BaseException):
 # harness-side helpers (imported by harness modules as `from engine import symx as H`)
 # --------------------------------------------------------------------------
 WITNESS = os.environ.get("VERIF_WITNESS", "") == "1"
+THOROUGH = os.environ.get("VERIF_TIER", "quick") == "thorough"
 
 
 def verdict(ok: Any) -> bool:
@@ -58,6 +59,7 @@ def ob(
     per_path: Optional[float] = None,
     note: str = "",
     expect: Optional[str] = None,
+    split: Optional[Dict[str, List[Any]]] = None,
 ):
     """Marks a harness function as an obligation.
 
@@ -78,6 +80,7 @@ def ob(
             per_path=per_path,
             note=note,
             expect=expect,
+            split=split,
         )
         _OBLIGATIONS[fn.__module__].append(fn)
         return fn
@@ -125,6 +128,12 @@ def prepare(model: str = "real") -> None:
     from crosshair.register_contract import REGISTERED_CONTRACTS
 
     # -- float model switch
+    if model == "realfin":
+        # finite reals only (no nan/inf alternatives): clocks, weights validated as finite
+        import warnings
+
+        warnings.filterwarnings("ignore", category=FutureWarning)
+        os.environ["CROSSHAIR_ONLY_FINITE_FLOATS"] = "1"
     if model == "ieee":
         bl._PYTYPE_TO_WRAPPER_TYPE[float] = ((bl.PreciseIeeeSymbolicFloat, 1.0),)
     else:
@@ -346,24 +355,37 @@ def replay_native(fn, kwargs: Dict[str, Any]) -> Tuple[bool, str]:
 
 
 def _add_pre(fn, extra_pre: List[str]):
-    """Returns a copy of fn whose docstring has additional `pre:` lines (placed first)."""
+    """Returns a wrapper of fn (same name/signature) whose PEP316 docstring has additional `pre:` lines placed
+    first.  CrossHair reads contracts from the *source text*, so the wrapper is written to a real file."""
     if not extra_pre:
         return fn
     import types
+    import linecache
 
-    g = types.FunctionType(fn.__code__, fn.__globals__, fn.__name__, fn.__defaults__, fn.__closure__)
-    g.__dict__.update(fn.__dict__)
-    g.__annotations__ = dict(fn.__annotations__)
-    g.__kwdefaults__ = fn.__kwdefaults__
-    g.__module__ = fn.__module__
-    g.__qualname__ = fn.__qualname__
-    doc = fn.__doc__ or ""
-    lines = doc.split("\n")
-    # insert before the first 'pre:' or 'post:' line
-    idx = next((i for i, l in enumerate(lines) if l.strip().startswith(("pre:", "post:"))), len(lines))
-    indent = re.match(r"\s*", lines[idx]).group(0) if idx < len(lines) else "    "
-    new = lines[:idx] + [f"{indent}pre: {p}" for p in extra_pre] + lines[idx:]
-    g.__doc__ = "\n".join(new)
+    import textwrap
+
+    full = inspect.getsource(fn)
+    k = full.index("def " + fn.__name__ + "(")
+    src_lines = textwrap.dedent(full[k:]).split("\n")
+    q = next(i for i, l in enumerate(src_lines) if l.strip().startswith('"""'))
+    if src_lines[q].strip() != '"""':
+        raise EngineBug("harness docstring must open with a line holding only three quotes")
+    src_lines[q + 1:q + 1] = [f"    pre: {p}" for p in extra_pre]
+    src = "\n".join(src_lines) + "\n"
+    d = os.environ.get("VERIF_SCRATCH") or os.getcwd()
+    _add_pre.n = getattr(_add_pre, "n", 0) + 1
+    path = os.path.join(d, f"_assume_{fn.__name__}_{_add_pre.n}.py")
+    with open(path, "w") as f:
+        f.write(src)
+    mod = types.ModuleType(f"_assume_{fn.__name__}_{_add_pre.n}")
+    mod.__dict__.update(fn.__globals__)
+    mod.__dict__["__name__"] = mod.__name__
+    mod.__file__ = path
+    sys.modules[mod.__name__] = mod
+    linecache.checkcache(path)
+    exec(compile(src, path, "exec"), mod.__dict__)
+    g = mod.__dict__[fn.__name__]
+    g.__module__ = mod.__name__
     return g
 
 
